@@ -64,10 +64,83 @@ _TREE = [None]
 _REAL_COMPOSER_GSN = yaml.composer.Composer.get_single_node
 
 
+def _install_fast_paths() -> None:
+    """Engine-side accelerations (they do not change what the real code
+    computes on the values the harnesses feed it):
+
+    * CrossHair replaces str.format by a pure-Python Formatter executed under
+      its tracer (needed for symbolic arguments); yatiml formats a log or
+      error message at almost every step, which made one path cost ~2 s.
+      When the template and every argument are plain concrete objects the
+      native str.format is used instead; a yaml.Node argument is rendered as
+      "N" (stub S1: formatting a node has no effect on control flow).
+    * inspect.getfullargspec is memoised per function object (S8).
+    """
+    import inspect
+    import typing
+    import crosshair.core as core
+    from crosshair.tracers import NoTracing
+    orig = core._PATCH_REGISTRATIONS.get(str.format)
+    if orig is None or getattr(orig, '_verif_fast', False):
+        return
+    # no function called from a harness carries a contract: switch off
+    # CrossHair's contract enforcement interposer (pure overhead here)
+    import contextlib
+    import crosshair.enforce as enf
+
+    @contextlib.contextmanager
+    def _no_enforcement(self):
+        yield None
+    enf.EnforcedConditions.enabled_enforcement = _no_enforcement
+    safe = {str, int, float, bool, type(None), Mark,
+            type(typing.List[int]), type(typing.Any),
+            type(typing.Union[int, str])}
+
+    def fast_format(self, /, *a, **kw):
+        with NoTracing():
+            if type(self) is str and not kw:
+                args = []
+                for x in a:
+                    if type(x) in safe or isinstance(x, type):
+                        args.append(x)
+                    elif isinstance(x, yaml.nodes.Node):
+                        args.append('N')
+                    elif type(x) in (list, tuple, set, frozenset) and all(
+                            type(y) in safe or isinstance(y, type)
+                            for y in x):
+                        args.append(x)
+                    else:
+                        args = None
+                        break
+                if args is not None:
+                    return str.format(self, *args)
+        return orig(self, *a, **kw)
+    fast_format._verif_fast = True
+    core._PATCH_REGISTRATIONS[str.format] = fast_format
+
+    real_spec = inspect.getfullargspec
+    cache = {}
+
+    def cached_spec(func):
+        with NoTracing():
+            try:
+                return cache[func]
+            except KeyError:
+                r = cache[func] = real_spec(func)
+                return r
+            except TypeError:
+                pass
+        return real_spec(func)
+    inspect.getfullargspec = cached_spec
+    STUBS_USED.append('S8 memoised inspect.getfullargspec; native '
+                      'str.format on concrete arguments')
+
+
 def install_stubs(close_matches: bool = True, composer: bool = True) -> None:
     """S1-S3.  Only under symbolic execution; replay runs the real thing."""
     if not SYMBOLIC:
         return
+    _install_fast_paths()
     # S1: formatting a node (logger.debug('...{}'.format(node))) has no effect
     # on control flow; without this CrossHair deep-realises every symbolic tag.
     yaml.nodes.Node.__ch_deep_realize__ = lambda self, memo: "N"
@@ -160,8 +233,15 @@ def tree_to_text(tree, loader_cls) -> str:
     gives the same (kind, tag, value, sharing) tree back."""
     if tree is None:
         return ''
-    text = yaml.serialize(tree, Dumper=_dumper_for(loader_cls),
-                          allow_unicode=True, width=10000)
+    if isinstance(tree, yaml.ScalarNode) and tree.value == '':
+        # PyYAML cannot emit an empty plain scalar at the top level
+        import re
+        if not re.fullmatch(r"[\w:,./!-]+", tree.tag):
+            raise HarnessError('empty root scalar with tag %r' % tree.tag)
+        text = '--- !<%s> ""\n' % tree.tag
+    else:
+        text = yaml.serialize(tree, Dumper=_dumper_for(loader_cls),
+                              allow_unicode=True, width=10000)
     ldr = loader_cls(text)
     try:
         back = _REAL_COMPOSER_GSN(ldr)
